@@ -114,7 +114,7 @@ def run(ctx):
                 cps = [ord(c) for c in t]
                 lines.append("F0=%d,%d,f;N0=0,16;S0=0,%d,-1,0,32,%d,-1,%s;R0;D0;d0;X0;L0" % (fi, r.choice([0, 28]), r.choice([0, -1]), r.choice([0, 1]), "".join("%08x" % c for c in cps) or "-"))
                 meta.append(("mutated:" + name, what))
-        impl = lib.run_lines([exe] + fonts, lines, per_chunk=60)
+        impl = lib.run_lines([exe] + fonts, lines, per_chunk=60, env=lib.LEAK_ENV)
         res.harness.append("h_seg safety histories (implementation only)")
         res.rules.append("safety: synthesised fonts x dir flags 0..7 x 3 encodings (ill-formed UTF, astral, unmapped, long runs); looping state machines on runs of 10..130 glyphs; fonts with an operand one past its table; byte-mutated shipped fonts (%s) x 10 texts; make face/font/seg, loop report, full dump, destroy, leak check" % ", ".join(SHIPPED))
         loopm = [(k, m[1]) for k, m in enumerate(meta) if m[0] == "loop"]
